@@ -82,7 +82,21 @@ def extract(g, X):
         kinds = {"Free": 0, "Raw": 1, "Stream": 2}
         ws = re.search(r"let\s*\[\s*(\w+)\s*,\s*(\w+)\s*,\s*(\w+)\s*\]", b).groups()
         # the type field: `let T = if w0 == 0 { D } else { read(w0) }`; the two other fields: `let F = read(w1|w2)`
-        d = re.search(r"let\s+(\w+)\s*=\s*if\s+" + ws[0] + r"\s*==\s*0\s*\{\s*(" + B + r")\s*\}\s*else\s*\{\s*read_u64_from_stream\(\s*" + ws[0] + r"\s*,", b)
+        # the type field: `let T = if w0 == 0 { D } else { read(w0) }` (or a match on w0, …): the initialiser is evaluated for
+        # w0 = 0 (-> the default D) and w0 = 1 (-> a read of w0 bytes)
+        tname = None
+        for m in re.finditer(r"let\s+(\w+)\s*(?::\s*\w+)?\s*=\s*", b):
+            init = X.let_expr(b[m.start():], m.group(1)) or ""
+            if re.search(r"\b" + ws[0] + r"\b", init) and "read_u64_from_stream" in init and not init.startswith("read_u64_from_stream"):
+                tname, tinit = m.group(1), init
+                break
+        at0 = X.tabulate(tinit, ws[0], pxr, scopes=[b], domain=(0, 1))
+        if at0[0].how != "value" or isinstance(at0[0].value, bool) or not isinstance(at0[0].value, int) or at0[0].effects:
+            raise ValueError("default type")
+        v1 = at0[1].value
+        if not (isinstance(v1, X.rsx.Opaque) and re.match(r"read_u64_from_stream\(\s*" + ws[0] + r"\s*,", v1.text)):
+            raise ValueError("type field is not read with its width: %r" % (v1,))
+        d = re.match(r"(\w+) (\d+)", "%s %d" % (tname, at0[0].value))
         field = {}
         for m in re.finditer(r"let\s+(\w+)\s*=\s*read_u64_from_stream\(\s*(\w+)\s*,", b):
             if m.group(2) in ws[1:]:
